@@ -278,7 +278,21 @@ def model_of(kind, rng):
     xs = f.stationary_point()
     x0 = pep.set_initial_point()
     if kind == "infeasible":
-        pep.set_initial_condition((x0 - xs) ** 2 <= -1)
+        # infeasible through a constraint over variables, or through a requirement that cancels to a FALSE CONSTANT
+        # (seed C16-9: constant constraints silently dropped, the model then has a finite value)
+        sub = rng.choice(["negative-radius", "constant", "cancelled-square", "cancelled-values", "zero-step"])
+        if sub == "negative-radius":
+            pep.set_initial_condition((x0 - xs) ** 2 <= -1)
+        else:
+            pep.set_initial_condition((x0 - xs) ** 2 <= 1)
+            if sub == "constant":
+                pep.add_constraint(Expression(is_leaf=False, decomposition_dict={1: 1.}) <= 0)
+            elif sub == "cancelled-square":
+                pep.add_constraint((x0 - x0) ** 2 == 2)
+            elif sub == "cancelled-values":
+                f.add_constraint(f(x0) - f(x0) >= 0.5)
+            else:
+                pep.add_constraint(((x0 - 0 * f.gradient(x0)) - x0) ** 2 >= 1)
     elif kind == "solvable":
         pep.set_initial_condition((x0 - xs) ** 2 <= 1)
     x = x0
